@@ -56,5 +56,11 @@ def gen(rng, tier):
         if len(ops) > 1:
             yield tab.line(ops)
 
+_gen0 = gen
+def gen(rng, tier):
+    yield from _gen0(rng, tier)
+    # a sanitise that ends early, then block writes over every register (always-fail ones included)
+    yield from stale_state_histories(rng, 200 if tier == 'thorough' else 40)
+
 def nontrivial(c):
     return True
